@@ -259,11 +259,39 @@ Theorem runner_run_meaning m p0 dyn s m' r p :
   runner_run O r p =
     run_model_gen O m' s
       (staged_env O dyn (fun k => assoc k (p0 ++ m_defaults m')) (env_of O (p ++ m_defaults m')))
-      (env_of O ((p ++ m_defaults m') ++ filter (fun kv => negb (mem_str (fst kv) dyn)) (p0 ++ m_defaults m'))).
+      (env_of O (filter (fun kv => negb (mem_str (fst kv) dyn)) (p0 ++ m_defaults m') ++ (p ++ m_defaults m'))).
 Proof.
   intros Hg Hm. destruct (get_runner_spec _ _ _ _ _ _ Hg) as (Hf & H1 & H2 & H3 & H4 & H5).
   unfold runner_run. rewrite Hm. cbn [guard bind]. unfold runner_env, runner_env_derived, frozen_base, runner_params.
   rewrite H1, H2, H3, H4, H5. reflexivity.
+Qed.
+
+Lemma assoc_app {A} k (l1 l2 : list (string * A)) :
+  assoc k (l1 ++ l2) = match assoc k l1 with Some v => Some v | None => assoc k l2 end.
+Proof.
+  induction l1 as [|[k0 v0] l1 IH]; cbn [app assoc]; [reflexivity|].
+  destruct (String.eqb k k0); [reflexivity | exact IH].
+Qed.
+
+Lemma assoc_filter_key {A} (q : string -> bool) k (l : list (string * A)) :
+  assoc k (filter (fun kv => q (fst kv)) l) = if q k then assoc k l else None.
+Proof.
+  induction l as [|[k0 v0] l IH]; cbn [filter assoc fst]; [destruct (q k); reflexivity|].
+  destruct (q k0) eqn:Q0; cbn [assoc].
+  - destruct (String.eqb_spec k k0) as [->|Hne]; [rewrite Q0; reflexivity | exact IH].
+  - destruct (String.eqb_spec k k0) as [->|Hne]; [rewrite Q0 in IH |- *; exact IH | exact IH].
+Qed.
+
+(* the derived-output functions of a run see every parameter at the value the rates see: what was fixed when the
+   runner was built is fixed for the whole run, whatever the call or the default parameters supply *)
+Theorem derived_env_consistent (r : runner) (p : params) (k : string) :
+  runner_env_derived O r p k = runner_env O r p k.
+Proof.
+  unfold runner_env_derived, runner_env, frozen_base, env_of. destruct (r_dyn r) as [dyn|]; [|reflexivity].
+  unfold api_staged_env, env_of. rewrite assoc_app.
+  rewrite (assoc_filter_key (fun k0 => negb (mem_str k0 dyn)) k (r_base r)).
+  destruct (mem_str k dyn); cbn [negb]; [reflexivity|].
+  destruct (assoc k (r_base r)); reflexivity.
 Qed.
 
 End ApiProofs.
